@@ -862,7 +862,7 @@ pub fn run(tier: &str, seed: u64) -> Report {
     for i in 0..n_hist {
         let arch = if i % 2 == 0 { Arch::X64 } else { Arch::A64 };
         let len = 10 + p.below(n_ops as u64) as usize;
-        let h = if i % 16 == 15 { gen_adversarial(&mut p, arch) } else { gen_history(&mut p, arch, len) };
+        let h = if i % 16 == 15 || i % 16 == 6 { gen_adversarial(&mut p, arch) } else { gen_history(&mut p, arch, len) };
         match arch {
             Arch::X64 => run_history::<X64H<MayAllocateDuringUnwind>>(&mut rep, &h, i, &mut gens_x),
             Arch::A64 => run_history::<A64H<MayAllocateDuringUnwind>>(&mut rep, &h, i, &mut gens_x),
